@@ -67,11 +67,17 @@ class Rec:
 
 
 def one(args):
-    pid, seed, idx, kgroups = args
-    rng = random.Random(seed * 7919 + idx)
+    pid, seed, idx, kgroups = args[:4]
+    kind = args[4] if len(args) > 4 else "general"
+    rng = random.Random(seed * 7919 + idx + {"general": 0, "boolsweep": 1000003, "decomp": 2000003}[kind])
     rec = Rec()
     try:
-        text, meta = scriptgen_itp.gen(rng, kgroups=kgroups)
+        if kind == "boolsweep":
+            text, meta = scriptgen_itp.gen_boolsweep(rng, kgroups=kgroups)
+        elif kind == "decomp":
+            text, meta = scriptgen_itp.gen_decomp(rng, kgroups=kgroups)
+        else:
+            text, meta = scriptgen_itp.gen(rng, kgroups=kgroups)
         rec.count("family:%s" % "+".join(meta["families"][:1]))
         rec.count("logic:%s" % meta["logic"])
         for f in meta["features"]:
@@ -83,7 +89,7 @@ def one(args):
     return rec
 
 
-def sweep(ctx, pid, n, kgroups):
+def sweep(ctx, pid, n, kgroups, nbool=0, ndecomp=0):
     # 0. pattern tie between coq/Front/ItpRequest.v and src/api/Interpret.cc (which model variant describes the tree)
     ff = itpcheck.front_facts()
     if "error" in ff:
@@ -105,6 +111,10 @@ def sweep(ctx, pid, n, kgroups):
         ctx.tie_broken("extracted-model:build", str(e))
     # 3. generated scripts
     jobs = [(pid, ctx.seed, i, kgroups) for i in range(n)]
+    # focused sweeps: propositional instances under every :simplify-interpolants level x PRNG bool algorithm (decided by exhaustive
+    # verified evaluation), Farkas conflicts aimed at the decomposing LRA algorithms under :interpolation-lra-algorithm 4, 5 and one other
+    jobs += [(pid, ctx.seed, i, kgroups, "boolsweep") for i in range(nbool)]
+    jobs += [(pid, ctx.seed, i, kgroups, "decomp") for i in range(ndecomp)]
     with cf.ThreadPoolExecutor(max_workers=12) as ex:
         for rec in ex.map(one, jobs):
             rec.replay(ctx)
@@ -113,4 +123,4 @@ def sweep(ctx, pid, n, kgroups):
 
 
 def run(ctx):
-    sweep(ctx, "C08", 80 if ctx.quick else 1800, None)
+    sweep(ctx, "C08", 80 if ctx.quick else 1800, None, nbool=90 if ctx.quick else 1500, ndecomp=130 if ctx.quick else 2500)
